@@ -1,5 +1,5 @@
 import os, subprocess, sys, glob
-sys.path.insert(0,'/work/react5')
+sys.path.insert(0, os.path.dirname(os.path.dirname(os.path.abspath(__file__))))
 from harness import pyspinner2lean, pyasync2lean
 ref = (pyspinner2lean.generate('/repo'), pyasync2lean.generate('/repo'))
 def changed(patch, apply_cmd=None):
